@@ -14,10 +14,21 @@
 (*   not reach a later directive.                                          *)
 (* Family 4: large fields (4096, 5000, 65536 bytes; several fields) and    *)
 (*   then the end of the format or an error of every kind.                 *)
+(* Family 5: one directive (after nothing or after a %s that succeeds) x    *)
+(*   every width form x every KIND of value the language has, reached in     *)
+(*   every way a value can reach an argument (literal, variable, element,    *)
+(*   member, call result, input document, missing element / member).         *)
+(* Family 6: one directive x NUMBERS of every class of the number rendering  *)
+(*   (both zeros, small and large whole numbers either side of 2^53 and of   *)
+(*   2^63, fractions, renderings longer than 17 digits) x widths placed      *)
+(*   around the length of THAT rendering x the ways a number is produced.    *)
+(*   The rendering is JqValue.NumText (the one number rendering of the       *)
+(*   language: print, concatenation, %v and %f share it).                    *)
 (* Every state is checked against the laws below; every finished call      *)
 (* (mode Done/Failed) is emitted as a vector.                              *)
 EXTENDS JqPrintf
 CONSTANTS MaxLen, MaxArgs, Family, Big
+V == INSTANCE JqValue
 
 Alphabet == {"%", "s", "f", "v", "d", "-", "0", "5", "x"}
 
@@ -55,10 +66,60 @@ Big4 == { "%4096s", "%5000s", "%65536s", "%-5000s", "%05000s", "%3000s%3000s", "
 End4 == { "", "%s", "%f", "%d", "%", "%5", "%-", "%65537s", "x%sx" }
 F4 == { Chars(b) \o <<"x">> \o Chars(e) : b \in Big4, e \in End4 }
 
-VARIABLES rest,   \* families 2-4: the part of the format not yet handed to the scanner
+\* Family 5: every kind of value x every way it reaches the argument list.
+\* <<kind, rendering, name>>; the name of an argument is name@via.
+Vals5 == { <<"str", <<"sa", "sb">>, "S">>, <<"num", <<"na">>, "N">>, <<"null", Chars("null"), "null">>,
+           <<"bool", Chars("true"), "true">>, <<"arr", Chars("[1]"), "[1]">>,
+           <<"obj", Chars("{\"a\": 1}"), "obj">>, <<"regex", Chars("<regex>"), "regex">> }
+ViasOf(kind) ==
+  {"lit", "var", "elem", "memb", "call"}
+  \cup (IF kind \in {"str", "num", "null", "bool", "arr", "obj"} THEN {"json"} ELSE {})
+  \cup (IF kind = "null" THEN {"noelem", "nomemb", "nojson"} ELSE {})    \* an element / member that is not there
+Args5 == UNION { { Arg(t[1], t[2], t[3] \o "@" \o via) : via \in ViasOf(t[1]) } : t \in Vals5 }
+         \cup { Arg("unset", Chars("<unknown>"), "unset@var"),      \* a name never assigned
+                Arg("fn", <<>>, "fn@var"), Arg("fn", <<>>, "native@var") }   \* a user function, a built-in
+W5 == {"", "4", "-4", "04", "12"}
+F5 == { pre \o <<"%">> \o Chars(w) \o <<d, "x">> : pre \in {<<>>, Chars("%sx")}, w \in W5, d \in {"s", "f", "v"} }
+
+\* Family 6: numbers n * 2^e (n odd, |n| < 2^31) and the two zeros.
+PN(n, e) == [k |-> "num", n |-> n, d |-> 1, e |-> e, nz |-> FALSE]
+Nums6Small == { V!Zero, V!NegZero, PN(1, 0), PN(-7, 0), PN(21, 1), PN(-25, 2), PN(1929, 6),
+                PN(-1, -1), PN(153, -1), PN(1, -20), PN(1, -30),
+                PN(1, 53), PN(3, 53), PN(1, 60), PN(-1, 62), PN(1162261467, 30), PN(2147483647, 32), PN(1, 63), PN(1, 70) }
+Nums6Big == { PN(-1, 0), PN(7, 0), PN(5, 1), PN(1, 16), PN(15625, 6),
+              PN(1, -1), PN(3, -1), PN(-7, -1), PN(1, -2), PN(17, -2), PN(-1, -10), PN(-3, -40), PN(1, -60),
+              PN(1, 31), PN(1, 32), PN(2147483647, 22), PN(-1, 53), PN(1, 54), PN(1, 62), PN(-1, 63), PN(-2147483647, 32),
+              PN(1, 64), PN(1220703125, 13), PN(1, 100), PN(5, 60), PN(3, 61), PN(-5, 59), PN(7, 55), PN(1162261467, 25) }
+Nums6 == Nums6Small \cup (IF Big THEN Nums6Big ELSE {})
+\* The print form of a number is the SHORTEST decimal that reads back as the same
+\* double, in positional notation.  Where that is not the exact expansion (more
+\* than 15 significant digits) it is a leaf fact <<|n|, e, text>>; LongOK below ties
+\* each to the exact expansion, the harness proves each shortest with exact arithmetic.
+PfLong == { <<1, -30, "0.0000000009313225746154785">>, <<3, -40, "0.0000000000027284841053187847">>,
+            <<1, -60, "0.0000000000000000008673617379884035">>,
+            <<1, 60, "1152921504606847000">>, <<1, 62, "4611686018427388000">>, <<1162261467, 30, "1247968747541495800">>,
+            <<1, 63, "9223372036854776000">>, <<2147483647, 32, "9223372032559809000">>, <<1, 64, "18446744073709552000">>,
+            <<1, 70, "1180591620717411300000">>, <<1, 100, "1267650600228229400000000000000">>,
+            <<5, 60, "5764607523034235000">>, <<3, 61, "6917529027641082000">>, <<5, 59, "2882303761517117400">>,
+            <<7, 55, "252201579132747780">>, <<1162261467, 25, "38999023360671740">> }
+PfNumText(x) ==
+  (IF V!IsNeg(x) THEN <<"-">> ELSE <<>>)
+  \o V!AbsText(x, { <<p[1], Chars(p[3])>> : p \in {q \in PfLong : q[1] = V!Abs(x.n) /\ q[2] = x.e} })
+NumName(x) == "n" \o ToString(x.n) \o "e" \o ToString(x.e) \o (IF x.nz THEN "z" ELSE "")
+Vias6 == IF Big THEN {"lit", "var", "json", "jsonexp", "arith"} ELSE {"lit", "json", "arith"}
+Args6 == { Arg("num", PfNumText(x), NumName(x) \o "@" \o via) : x \in Nums6, via \in Vias6 }
+\* widths around the length of the rendering, in every written form
+Forms6 == IF Big THEN {"", "-", "0", "-0"} ELSE {"", "-", "0"}
+Deltas6 == {-1, 0, 1, 3}
+WText(n) == V!DigText(V!Rev(V!DigitsLE(n)))
+Specs6(a) == { <<>> } \cup { Chars(f) \o WText(Len(a.r) + dl) : f \in Forms6, dl \in Deltas6 }
+F6(a) == { <<"x", "%">> \o w \o <<d, "x">> : w \in Specs6(a), d \in {"f", "v", "s"} }
+
+VARIABLES rest,   \* families 2-6: the part of the format not yet handed to the scanner
           todo,   \* family 3: directives still to be appended to the format
-          rich    \* family 3: long and short arguments (else short only)
-vars == <<inp, args, mode, wneg, wzero, wval, buf, argi, out, writes, why, rest, todo, rich>>
+          rich,   \* family 3: long and short arguments (else short only)
+          pick    \* family 6: the number of this call (else NoArg)
+vars == <<inp, args, mode, wneg, wzero, wval, buf, argi, out, writes, why, rest, todo, rich, pick>>
 
 \* candidates for the next argument when the scanner is handed byte c
 ArgsFor(c) ==
@@ -69,14 +130,22 @@ ArgsFor(c) ==
           ELSE IF c = "f" THEN (IF rich THEN {ByName("N"), ByName("M")} ELSE {ByName("N")})
           ELSE IF c = "v" THEN (IF rich THEN {ByName("S"), ByName("M"), ByName("[1]")} ELSE {ByName("S")})
           ELSE {NoArg})
-  ELSE (IF c \in {"s", "f", "v"} THEN {ByName("S"), NoArg} ELSE {NoArg})
+  ELSE IF Family = 4 THEN (IF c \in {"s", "f", "v"} THEN {ByName("S"), NoArg} ELSE {NoArg})
+  ELSE IF Family = 5 THEN
+         (IF Len(rest) > 2 THEN {ByName("S")}          \* the %s in front
+          \* a function handed to %v: the statement says "any value", the language refuses to
+          \* pass functions around at all; left open
+          ELSE {a \in Args5 : c = "v" => a.kind # "fn"} \cup {NoArg})
+  ELSE {pick}
 
 Init == /\ PInit(<<>>)
-        /\ rest \in (CASE Family = 1 -> {<<>>} [] Family = 2 -> F2 [] Family = 3 -> {<<"x">>} [] Family = 4 -> F4)
+        /\ pick \in (IF Family = 6 THEN Args6 ELSE {NoArg})
+        /\ rest \in (CASE Family = 1 -> {<<>>} [] Family = 2 -> F2 [] Family = 3 -> {<<"x">>} [] Family = 4 -> F4
+                       [] Family = 5 -> F5 [] Family = 6 -> F6(pick))
         /\ todo \in (IF Family = 3 THEN {2, 3} ELSE {0})
         /\ rich = (Big \/ todo = 2)
 
-Next == /\ UNCHANGED rich
+Next == /\ UNCHANGED <<rich, pick>>
         /\ IF Family = 1
            THEN \/ /\ Len(inp) < MaxLen
                    /\ \E c \in Alphabet : Step(c, ArgsFor(c))
@@ -126,8 +195,8 @@ PadLaw(p, pol) ==
                   /\ \A i \in (n + 1)..Len(span) : span[i] = PadCh(p, pol)
              ELSE /\ SubSeq(span, Len(span) - n + 1, Len(span)) = p.r
                   /\ \A i \in 1..(Len(span) - n) : span[i] = PadCh(p, pol)
-          /\ PadCh(p, pol) = "0" => p.zero
-          /\ (p.zero /\ ~p.neg) => PadCh(p, pol) = "0"
+          /\ (PadCh(p, pol) = "0") <=> (p.zero /\ ~p.neg)
+          /\ p.neg => \A i \in (n + 1)..Len(span) : span[i] = " "     \* nothing but blanks after the rendering
 
 RECURSIVE FieldMin(_)
 FieldMin(fs) == IF fs = <<>> THEN 0
@@ -136,9 +205,8 @@ FieldMin(fs) == IF fs = <<>> THEN 0
 
 BigWidth == \E i \in 1..Len(buf) : buf[i].w > 600
 
-\* the open points can only matter where a %v, a %% or a "-0" width occurs
-Sensitive(ps) == \E i \in 1..Len(ps) :
-                    ps[i].t = "fld" /\ (ps[i].d \in {"v", "%"} \/ (ps[i].neg /\ ps[i].zero))
+\* the open points can only matter where a %v or a %% occurs
+Sensitive(ps) == \E i \in 1..Len(ps) : ps[i].t = "fld" /\ ps[i].d \in {"v", "%"}
 LawPolicies == IF mode = "Done" /\ Sensitive(out) THEN Policies ELSE {CodePolicy}
 
 Finished ==
@@ -157,7 +225,62 @@ Finished ==
       /\ mode = "Failed" => /\ OutRuns(pol) = <<>>
                             /\ writes = 0
 
-Laws == TypeOK /\ WriteOnce /\ BufShape /\ Finished
+\* only the kind of a value decides; of the kinds only a string suits %s, only a number %f
+KindLaw ==
+  /\ \A a \in Args5 : /\ a.kind \in ArgKinds
+                      /\ KindOK("s", a) <=> (a.kind = "str")
+                      /\ KindOK("f", a) <=> (a.kind = "num")
+                      /\ KindOK("v", a)
+  /\ {a.kind : a \in Args5} = ArgKinds
+\* the argument of the wrong kind was looked at and not consumed
+KindFail == why = "kind" => Len(args) = argi + 1 /\ args[Len(args)].kind \in ArgKinds
+
+\* ---- the number renderings of family 6
+\* t is e correctly rounded to its first k bytes (k: the last byte of t that is not "0"),
+\* zero-filled up to the point, nothing after it beyond k
+RECURSIVE IncDigs(_)
+IncDigs(ds) ==          \* the digit string (with or without a point) plus one unit in its last place
+  IF ds = <<>> THEN <<"1">>
+  ELSE LET l == ds[Len(ds)] h == SubSeq(ds, 1, Len(ds) - 1)
+       IN IF l = "." THEN IncDigs(h) \o <<".">>
+          ELSE IF l = "9" THEN IncDigs(h) \o <<"0">>
+          ELSE Append(h, V!DigitChar(V!DigitVal(l) + 1))
+LastSig(t) == SetMax({i \in 1..Len(t) : t[i] \notin {"0", "."}})
+SigCount(t) == LET nz == {i \in 1..Len(t) : t[i] \notin {"0", "."}}
+               IN Cardinality({i \in SetMin(nz)..SetMax(nz) : t[i] # "."})
+RoundedTo(t, e) ==
+  LET k == LastSig(t)
+      cut == SubSeq(e, 1, k)
+      more == {i \in (k + 1)..Len(e) : e[i] # "."}
+      nxt == IF more = {} THEN "0" ELSE e[SetMin(more)]
+      tail0 == \A i \in more : i = SetMin(more) \/ e[i] = "0"
+      up == V!DigitVal(nxt) > 5 \/ (nxt = "5" /\ ~tail0)
+      dn == V!DigitVal(nxt) < 5
+  IN /\ k <= Len(e)
+     /\ \/ ~dn /\ SubSeq(t, 1, k) = IncDigs(cut)
+        \/ ~up /\ SubSeq(t, 1, k) = cut
+     /\ \A i \in (k + 1)..Len(t) : t[i] = "0"
+     /\ LET pt == {i \in 1..Len(e) : e[i] = "."}
+        IN IF pt = {} THEN Len(t) = Len(e) ELSE k > SetMin(pt) /\ Len(t) = k
+LongOK ==
+  \A p \in PfLong :
+    LET x == PN(p[1], p[2]) t == Chars(p[3]) e == V!ExactText(x)
+    IN /\ x = V!Num(p[1], 1, p[2])
+       /\ t # e /\ RoundedTo(t, e)
+       /\ SigCount(t) \in 16..17 /\ SigCount(e) > SigCount(t)
+NumLaw ==
+  /\ \A x \in Nums6 : /\ x.n = 0 \/ x = V!Num(x.n, 1, x.e)                      \* normal form: the name is the number
+                      /\ V!IsNeg(x) <=> (Head(PfNumText(x)) = "-")              \* negative zero shows its sign
+                      /\ PfNumText(V!Neg(x)) # PfNumText(x)
+                      /\ Len(PfNumText(x)) <= 8 => V!ParseNum(PfNumText(x)) = [ok |-> TRUE, v |-> x]   \* reads back
+                      /\ PfNumText(x) = V!NumText(x) \/ \E p \in PfLong : p[1] = V!Abs(x.n) /\ p[2] = x.e
+                      /\ (x.n # 0 /\ SigCount(V!ExactText(x)) > 17) => \E p \in PfLong : p[1] = V!Abs(x.n) /\ p[2] = x.e
+  /\ \A x, y \in Nums6 : x # y => PfNumText(x) # PfNumText(y)
+  /\ PfNumText(V!NegZero) = Chars("-0") /\ PfNumText(PN(-1, 62)) = Chars("-4611686018427388000")
+ASSUME KindLaw
+ASSUME Family = 6 => LongOK /\ NumLaw
+
+Laws == TypeOK /\ WriteOnce /\ BufShape /\ Finished /\ KindFail
 
 \* Action properties
 IsPrefix(a, b) == Len(a) <= Len(b) /\ SubSeq(b, 1, Len(a)) = a
@@ -175,12 +298,13 @@ EveryByteConsumed == [][ByteStep]_vars
 
 \* ------------------------------------------------------------------------
 \* outs[k+1] is the output under policy k (bit 0: width applies to %v, bit 1: to
-\* %%, bit 2: zero flag with a negative width); entries equal to outs[1] are 0.
-PolOf(k) == [v |-> (k % 2 = 1), pct |-> ((k \div 2) % 2 = 1), zneg |-> ((k \div 4) % 2 = 1)]
+\* %%); entries equal to outs[1] are 0.
+PolOf(k) == [v |-> (k % 2 = 1), pct |-> ((k \div 2) % 2 = 1)]
 Vec == mode \in Terminal =>
   LET base == OutRuns(PolOf(0)) IN
   Emit([fam |-> Family, fmt |-> inp, args |-> [i \in 1..Len(args) |-> args[i].src],
         cls |-> Class,
-        outs |-> [k \in 1..8 |-> IF k > 1 /\ OutRuns(PolOf(k - 1)) = base THEN <<0>> ELSE OutRuns(PolOf(k - 1))],
+        outs |-> [k \in 1..4 |-> IF k > 1 /\ OutRuns(PolOf(k - 1)) = base THEN <<0>> ELSE OutRuns(PolOf(k - 1))],
+        rend |-> pick.r,
         why |-> why])
 =============================================================================
